@@ -599,6 +599,30 @@ struct Demo {
     nested: Option<Box<Demo>>,
 }
 
+/// numeric member types a generic JSON value cannot hold exactly (f32 is widened, 128-bit integers overflow), fields not
+/// in alphabetical order, a map with insertion order: Json<T> must write exactly what serde_json::to_vec writes
+#[derive(serde::Serialize, serde::Deserialize, PartialEq, Debug, Clone)]
+struct Numeric {
+    zeta: f32,
+    alpha: u128,
+    mid: i128,
+    ratio: f64,
+    small: u8,
+    #[serde(rename = "Beta")]
+    beta: Vec<(String, i16)>,
+}
+
+fn rand_numeric(g: &mut SplitMix64) -> Numeric {
+    Numeric {
+        zeta: [21.1f32, 0.1, 1.0e-7, 3.4028235e38, -0.0, 16777217.0][g.below(6) as usize],
+        alpha: [0u128, u64::MAX as u128, u64::MAX as u128 + 1, u128::MAX][g.below(4) as usize],
+        mid: [0i128, i64::MIN as i128, i64::MIN as i128 - 1, i128::MIN, i128::MAX][g.below(5) as usize],
+        ratio: [0.1f64, 1.0e300, 5e-324, 123456789.125][g.below(4) as usize],
+        small: g.next() as u8,
+        beta: (0..g.below(3)).map(|_| (gens::rand_string(g, 4), g.next() as i16)).collect(),
+    }
+}
+
 fn enc_payload<T: serde::Serialize + serde::de::DeserializeOwned>(v: T) -> Result<Vec<u8>, String> {
     let mut out: Vec<u8> = vec![];
     <Json<T> as Payload>::encode(Json(v), &mut out).map(|_| out).map_err(|e| e.to_string())
@@ -671,6 +695,7 @@ fn json_wrappers(run: &mut Run, g: &mut SplitMix64, n: usize) {
             check_json_value(run, &v, "serde_json::Value");
         }
         check_json_value(run, &rand_demo(g, 3), "Demo");
+        check_json_value(run, &rand_numeric(g), "Numeric");
         if i % 5 == 0 {
             // documents for Demo with unknown / missing / duplicated / reordered fields: verdicts must equal serde_json's
             let d = rand_demo(g, 1);
